@@ -18,10 +18,13 @@ var (
 	qPairs = []qinq.VLANPair{{STag: 100, CTag: 10}, {STag: 100, CTag: 11}, {STag: 101, CTag: 10}, // valid
 		{STag: 99, CTag: 10}, {STag: 100, CTag: 12}, // outside the configured ranges
 		{STag: 0, CTag: 10}} // single-tagged (valid: no S-TAG to validate)
-	qSubs = []string{"a", "b", "c"}
+	qSubs = []string{"olt-1/0/3:100 a.b", "3:100 a.b", "olt-1/0"} // structured subscriber ids
 )
 
 type qinqSys struct {
+	// conc: driven by concurrent threads (Engine B). Per-operation before/after comparisons are
+	// meaningless then (another thread may run in between); only the end-state Check applies.
+	conc  bool
 	m     *qinq.Mapper
 	cfg   qinq.Config
 	viols []explore.Viol
@@ -87,8 +90,27 @@ func (s *qinqSys) snap() qsnap {
 	return q
 }
 
+func (s *qinqSys) applyRaw(name string, args []string) string {
+	switch name {
+	case "Register":
+		i, _ := strconv.Atoi(args[0])
+		if s.m.Register(qPairs[i], args[1]) != nil {
+			return "err"
+		}
+	case "Unregister":
+		i, _ := strconv.Atoi(args[0])
+		s.m.Unregister(qPairs[i])
+	case "UnregisterSubscriber":
+		s.m.UnregisterSubscriber(args[0])
+	}
+	return "ok"
+}
+
 func (s *qinqSys) Apply(op string) string {
 	name, args := argsOf(op)
+	if s.conc {
+		return s.applyRaw(name, args)
+	}
 	b := s.snap()
 	switch name {
 	case "Register":
